@@ -32,6 +32,7 @@ type c08In struct {
 	ExcludeUsers bool     `json:"exclude_users"`
 	LocalFault   string   `json:"local_fault"` // "", "ro:err:1290", "ro:hang", "ro:drop", "ack:err", "offline:err", "semidisable:err", "ping:err", "isro:err"
 	LocalRO      bool     `json:"local_ro"`
+	Passes       int      `json:"passes,omitempty"` // >1: stateLost is run that many times, 5 s apart (the injected fault is transient: it hits the first pass only)
 }
 
 var c08Conds = []string{"streaming", "nosemi", "stopped_io", "stopped_sql", "wrong_source", "is_master", "refusing", "timeout", "semi_err", "status_err"}
@@ -133,6 +134,10 @@ func c08Run(in c08In) c08Out {
 	d.silent = false
 	// IsConnected must answer although "disconnected": the memory DCS answers locally
 	st := va.app.stateLost()
+	for p := 1; p < in.Passes; p++ {
+		time.Sleep(5 * time.Second)
+		st = va.app.stateLost()
+	}
 	d.silent = true
 	synctest.Wait() // let the fake servers finish recording hung statements
 	out.State = string(st)
@@ -180,7 +185,7 @@ func c08Case(in c08In, out c08Out) string {
 }
 
 // c08Monitor evaluates the property's clauses on the implementation's run.
-func c08Monitor(m *vk.Meta, in c08In, out c08Out) {
+func c08MonitorCalls(m *vk.Meta, in c08In, out c08Out) {
 	// never promotes, re-points or un-fences anything while disconnected
 	for _, e := range out.Trans {
 		switch e.Kind {
@@ -191,6 +196,10 @@ func c08Monitor(m *vk.Meta, in c08In, out c08Out) {
 			m.Violation("only the local node is changed in the lost state", in, fmt.Sprintf("%s on %s", e.Kind, e.Host))
 		}
 	}
+}
+
+func c08Monitor(m *vk.Meta, in c08In, out c08Out) {
+	c08MonitorCalls(m, in, out)
 	if in.Connected {
 		return
 	}
@@ -330,6 +339,40 @@ func TestVerifC08(t *testing.T) {
 	}
 	if len(cases) > 0 {
 		o.CasesFile(fmt.Sprintf("c08_%02d", shard), []string{"Gtid.GtidSet", "Base.Prog", "Base.Config", "Base.Replay", "Procs.NodeOps", "Procs.Lost", "Corr.C13", "Corr.C08"}, "lost_case", cases, "mismatches_lost", "Definition cov_sites := Eval vm_compute in (lost_sites cases).\nPrint cov_sites.")
+	}
+	// the lost state persists: four passes, a transient SQL fault in the first one only.  Whatever failed then, a node that must
+	// be fenced ends up read-only (with its stuck commits cut) once the fault is over.
+	for i := 0; i < n/2; i++ {
+		in := c08Gen(o, i)
+		in.Connected, in.DisableRO, in.LocalHA, in.LostAgo, in.Passes = false, false, true, -1, 4
+		if in.N < 2 {
+			in.N, in.Conds = 2, []string{"stopped_io"}
+		}
+		for j := range in.Conds {
+			switch in.Conds[j] {
+			case "timeout", "semi_err", "status_err": // one-shot conditions would change the verdict between passes
+				in.Conds[j] = "stopped_sql"
+			}
+		}
+		if in.LocalFault == "ro:hang" || in.LocalFault == "ping:err" || in.LocalFault == "isro:err" || in.LocalFault == "" {
+			in.LocalFault = []string{"semidisable:err", "offline:err", "ack:err", "ro:err:1290", "ro:drop"}[o.Rng.Intn(5)]
+		}
+		if in.LocalMaster && o.Rng.Intn(2) == 0 {
+			in.Stuck, in.Unkillable = 1+o.Rng.Intn(2), true
+		}
+		one := in
+		one.Passes, one.LocalFault = 1, ""
+		ref := run(one)
+		out := run(in)
+		m.Evaluations++
+		m.Count("multi_pass_fault_" + in.LocalFault)
+		c08MonitorCalls(m, in, out)
+		// the reference run (no fault, one pass) tells whether this situation is one that must be fenced
+		fencedRef := ref.LocalAfter.RO
+		if fencedRef && !out.LocalAfter.RO {
+			m.Violation("a node that has to be fenced is read-only (stuck commits cut, semi-sync off) once a transient failure of one fencing step is over", in,
+				fmt.Sprintf("after %d passes: read_only=%v offline=%v semi_master=%v stuck=%d (a single fault-free pass fences it)", in.Passes, out.LocalAfter.RO, out.LocalAfter.Offline, out.LocalAfter.SSMaster, out.LocalAfter.StuckCommits))
+		}
 	}
 	m.DistinctNontrivial = dist.Len()
 	m.Rule = fmt.Sprintf("%d scenarios of the real App.stateLost over fake MySQL servers under testing/synctest: cluster size 1-4, local role master/replica/non-HA, per-replica condition in %v, semi-sync on/off, wait count 0-2, fencing disabled or not, loss clock none/<,=,> inactivation delay, stuck (un)killable commits, injected SQL faults on the local node; distinct = distinct inputs whose run issued more than 2 external calls", n, c08Conds)
